@@ -118,6 +118,7 @@ func runC11(c *Ctx) {
 	shellQuoteRule(c, "R9")
 	everyValueRecorded(c, "R2")
 	extensionCommandsOnlyFromTrustedConfig(c, "R5")
+	fetchPathsLastValueWins(c, "R2")
 	rg := p.Fn("config", "readGitConfig")
 	if rg == nil {
 		c.Missing("R2", "config.readGitConfig", "function not found")
